@@ -14,7 +14,7 @@ RULE = ('all well-formed signatures of <=3 (quick) / <=4 (thorough) parameters o
         'every positional list of length 0..arity+1 and every mapping over subsets of (names + one unknown name), (2) dispatch '
         'cases - the same inputs sent as JSON-RPC params to a generated method whose body returns its bound arguments, with the '
         'context parameter at each position and in each passing mode (by name, first positional, view constructor) x plain '
-        'function / coroutine (async dispatcher) / class-based view method; a mapping naming the context parameter is included; the context object is drawn from truthy and falsy values ({}, 0, None, '', [], False). '
+        'function / coroutine (async dispatcher) / class-based view method (ordinary and @staticmethod); a mapping naming the context parameter is included; the context object is drawn from truthy and falsy values ({}, 0, None, '', [], False). '
         'twin cases: the SAME function registered twice (with and without a context designation), one registration served first, the other observed. distinct = distinct (signature, context mode, kind, params); non-trivial = the method body ran')
 EXHAUSTIVE = {'quick': True, 'thorough': True}
 TRUSTED_BASE = ['CPython 3.12 call binding and inspect.Signature.bind as transcribed in Model/Bind.v (py_call is validated '
@@ -70,6 +70,8 @@ def ctx_modes(sig):
     yield ('none',)
     yield ('view', False)
     yield ('view', True)
+    yield ('view', False, 'static')       # a @staticmethod exposed by a class-based view
+    yield ('view', True, 'static')
     for i, (n, k, d) in enumerate(sig):
         if k in ('PK', 'KO') and not d:
             yield ('name', n)
